@@ -102,3 +102,42 @@ def identity_scenario(rng):
 def with_scenarios(gen, share=0.15):
     """mixes the directed identity scenarios into a random profile"""
     return lambda rng: identity_scenario(rng) if rng.random() < share else gen(rng)
+
+
+def rotation_scenario(rng, disable=False):
+    """Directed scenario for keys that hold SEVERAL revisions: rotate the rights of a key a few times, refresh it keeping
+    its old secrets, put the key (and the master key, the public key, the encapsulations) through serialization round
+    trips, optionally disable / prune in between, and refresh / decapsulate again: a multi-revision key read back from
+    bytes must still be refreshable with either flag and open what it opened."""
+    x = hist.x
+    out = ['SETUP']; nmpk = 1; nenc = 0
+    kind = rng.choice(['AA', 'AH']); out.append(f'{kind} {x("D")}')
+    names = rng.sample(['a', 'b', 'c'], rng.randint(2, 3))
+    for a in names: out.append(f"AT {x('D')} {x(a)} {rng.choice('01')} -")
+    if rng.random() < 0.5: out += [f"AA {x('S')}", f"AT {x('S')} {x('s')} {rng.choice('01')} -"]
+    out.append('UPD'); nmpk += 1
+    pol = rng.choice(['*', f'D::{names[0]}', f'D::{names[-1]}', f'D::{names[0]} || D::{names[1]}'])
+    out.append(f'KG {x(pol)}'); out.append(f'KG {x("D::" + names[1])}')
+    out.append(f'EN {nmpk - 1} {x("D::" + names[0])}'); nenc += 1
+    for _ in range(rng.randint(1, 3)):
+        out.append(f'RK {x(rng.choice(["*", "D::" + rng.choice(names)]))}'); nmpk += 1
+        if rng.random() < 0.6: out.append(f'EN {nmpk - 1} {x("D::" + rng.choice(names))}'); nenc += 1
+        if rng.random() < 0.7: out.append(f"RF {rng.choice('01')} 1")
+    out.append('RF 0 1')
+    out.append(f"RT USK {rng.choice('01')}"); out.append('RT USK 0')
+    if rng.random() < 0.4: out.append('RT MSK')
+    if disable:
+        out += [f"DS {x('D')} {x(rng.choice(names))}", 'UPD']; nmpk += 1
+    if rng.random() < 0.4: out.append(f'PR {x("D::" + rng.choice(names))}'); nmpk += 1
+    out.append(f"RF 0 {rng.choice('01')}"); out.append(f"RF 1 {rng.choice('01')}")
+    out.append(f'RT MPK {nmpk - 1}')
+    out.append(f'EN {nmpk - 1} {x("D::" + names[1])}'); nenc += 1
+    out.append(f'RT ENC {nenc - 1}'); out.append('RT USK 1')
+    out.append(f"RF 0 {rng.choice('01')}")
+    for k in range(2):
+        for e in range(nenc): out.append(f'DE {k} {e}')
+    return out
+
+
+def with_rotation(gen, share=0.1, disable=False):
+    return lambda rng: rotation_scenario(rng, disable) if rng.random() < share else gen(rng)
